@@ -38,7 +38,8 @@ use std::{
 };
 
 #[cfg(not(swimos_verif_shuttle))]
-use futures::task::AtomicWaker;
+use futures::{task::AtomicWaker, Future};
+#[cfg(swimos_verif_shuttle)]
 use futures::Future;
 
 // Verification hook: under `--cfg swimos_verif_shuttle` registering and waking the waker are scheduling
